@@ -3,7 +3,8 @@
 //! conditional default (disarmed), self-pipe wake on a completely FULL socket and on a full pipe,
 //! iterator with SignalOnly, iterator with WithRawSiginfo (channel send) - while the allocator
 //! wrapper counts heap traffic and the shim records every synchronisation operation.
-//! Output: `ops <n>`, `kinds <op codes seen>`, `allocs <n> frees <n>`, `elapsed_us <n>`.
+//! Then 1500 more deliveries that nobody drains (the iterators' own socket pairs fill up).
+//! Output: `ops <n>`, `kinds <op codes seen>`, `allocs <n> frees <n>`, `elapsed_us <n>`, `burst_elapsed_us <n>`.
 use sh_harness::sched;
 use signal_hook::iterator::exfiltrator::WithRawSiginfo;
 use signal_hook::iterator::{Signals, SignalsInfo};
@@ -92,6 +93,13 @@ fn real_main() {
         sched::FREES_IN_DELIVERY.load(Ordering::SeqCst)
     );
     println!("elapsed_us {}", el);
+    // a burst nobody drains: the iterators' own self-pipes (std socket pairs in blocking mode) fill up after a few
+    // hundred wake-ups; every further delivery must still return at once
+    let t1 = std::time::Instant::now();
+    for _ in 0..1500 {
+        unsafe { signal_hook_registry::verif_api::dispatch(sig, &mut info, &mut ctx as *mut u64 as *mut libc::c_void) };
+    }
+    println!("burst_elapsed_us {}", t1.elapsed().as_micros());
     println!("flag {} uflag {}", flag.load(Ordering::SeqCst) as i32, uflag.load(Ordering::SeqCst));
     println!("signals {:?}", sigs.pending().collect::<Vec<_>>());
     println!("infos {}", infos.pending().count());
